@@ -216,6 +216,13 @@ impl Shape for Triangle {
 
     #[inline]
     fn winding(&self, pt: Point) -> i32 {
+        // A triangle without area has no interior. Without this check every point on the
+        // supporting line of a degenerate triangle (every point of the plane if all three
+        // vertices coincide) would count as inside, as `signum` maps the vanishing cross
+        // products below to ±1.
+        if self.is_zero_area() {
+            return 0;
+        }
         let s0 = (self.b - self.a).cross(pt - self.a).signum();
         let s1 = (self.c - self.b).cross(pt - self.b).signum();
         let s2 = (self.a - self.c).cross(pt - self.c).signum();
